@@ -315,7 +315,7 @@ func checkC10(c *Ctx) {
 	}
 	nEncProgs := len(progs)
 	progs = append(progs, c10StructuredProgs()...)
-	c.Rule = fmt.Sprintf("(a) %d programs: for every implemented encoding the program enc;enc;enc from 2 base states, plus %d structured programs (self-modifying code, LDIR over its own code, block instructions, loops, calls, prefix chains, IM switches, each also with NMI/IM1/IM2/IM0 requests at 3 boundaries); for each program of N Steps: a second fresh CPU from the same initial state, and for EVERY boundary k in 1..N-1 a fresh CPU value rebuilt from copies of States, HALT, the pending request, memory and device, must follow the original Step for Step (States, HALT, pending, memory digest after every Step); one CPU value reused across all programs must behave like a fresh one. (b) for every implemented encoding: 2 CPUs on their own memories execute it at the same time with different register/memory data, scheduling points inside every memory/port callback, ALL interleavings enumerated by the controlled scheduler (no preemption bound), plus 2-Step programs with a point between Steps at preemption bound 2; each CPU's final state and access trace must equal its solo run. Non-trivial: snapshots at k>=1 and schedules with at least one context switch (counted).", len(progs), len(progs)-nEncProgs)
+	c.Rule = fmt.Sprintf("(a) %d programs: for every implemented encoding the program enc;enc;enc from 2 base states, plus %d structured programs (self-modifying code, LDIR over its own code, block instructions, loops, calls, prefix chains, IM switches, each also with NMI/IM1/IM2/IM0 requests at 3 boundaries); for each program of N Steps: a second fresh CPU from the same initial state, and for EVERY boundary k in 1..N-1 a fresh CPU value rebuilt from copies of States, HALT, the pending request, memory and device, must follow the original Step for Step (States, HALT, pending, memory digest after every Step); one CPU value reused across all programs must behave like a fresh one; all ordered pairs enc1;enc2 of implemented encodings (quick: every 4th as enc1) with a snapshot between the two instructions. (b) for every implemented encoding: 2 CPUs on their own memories execute it at the same time with different register/memory data, scheduling points inside every memory/port callback, ALL interleavings enumerated by the controlled scheduler (no preemption bound), plus 2-Step programs with a point between Steps at preemption bound 2; each CPU's final state and access trace must equal its solo run. Non-trivial: snapshots at k>=1 and schedules with at least one context switch (counted).", len(progs), len(progs)-nEncProgs)
 	c.Bound = "every snapshot point; all interleavings of 2 single-Step CPUs; 2-Step programs at preemption bound 2 (thorough: 3)"
 	type pair struct{ a, b *c10Machine }
 	pairs := make([]*pair, 16)
@@ -336,6 +336,62 @@ func checkC10(c *Ctx) {
 			}
 		}
 	}, nil)
+	// all ordered pairs of implemented encodings: enc1 ; enc2 with a snapshot between them. Whatever
+	// enc1 leaves behind outside States/memory (a latch, a prefix flag, a cached decode) makes the rebuilt
+	// CPU execute enc2 differently from the original.
+	pairEvery := 1
+	if c.Quick() {
+		pairEvery = 4 // quick: every 4th encoding as the first instruction (all as the second)
+	}
+	var pairN [16 * 8]int64
+	nenc := len(set.Encs)
+	codes := make([][]uint8, nenc)
+	for i := range set.Encs {
+		p := baseVector(0)
+		var cs Case
+		materialise(&p, &set.Encs[i], &cs)
+		codes[i] = append([]uint8{}, cs.Bytes...)
+	}
+	parallel(int64(nenc), 1, 16, func(wi int, lo, hi int64) {
+		if pairs[wi] == nil {
+			pairs[wi] = &pair{newC10Machine(bg), newC10Machine(bg)}
+		}
+		a, b := pairs[wi].a, pairs[wi].b
+		for i := lo; i < hi; i++ {
+			if int(i)%pairEvery != 0 {
+				continue
+			}
+			prog := c10Prog{Name: "pair", PC: 0x0100, Base: 0, Steps: 2}
+			for j := 0; j < nenc; j++ {
+				a.mem.Reset()
+				a.mem.Poke(0x0100, codes[i]...)
+				*a.io = obs.IO{X: 0x42, Fixed: true}
+				bs := baseVector(0)
+				bs.S.PC, bs.S.SP = 0x0100, 0xF000
+				a.cpu = &z80.CPU{Memory: a.mem, IO: a.io}
+				toCPU(&bs.S, a.cpu)
+				if c02Step(a.cpu) != nil {
+					break
+				}
+				a.mem.Poke(a.cpu.PC, codes[j]...)
+				b.cloneFrom(a)
+				pa, pb := c02Step(a.cpu), c02Step(b.cpu)
+				pairN[wi*8]++
+				if pa != nil || pb != nil || c10Digest(a) != c10Digest(b) {
+					x, y := fromCPU(a.cpu), fromCPU(b.cpu)
+					prog.Name = fmt.Sprintf("pair %s ; %s", set.Encs[i].Name, set.Encs[j].Name)
+					prog.Bytes = hexBytes(codes[i]) + " ; " + hexBytes(codes[j])
+					c.Report("c10/snapshot:pair:"+set.Encs[i].Name, i*1000+int64(j), "", prog, []string{fmt.Sprintf("%s then %s: the CPU rebuilt from States+memory after the first instruction executes the second differently: original %v (panic %v) ; rebuilt %v (panic %v)", set.Encs[i].Name, set.Encs[j].Name, stateMap(&x), pa, stateMap(&y), pb)})
+					break
+				}
+			}
+		}
+	}, nil)
+	var pairTotal int64
+	for i := range pairN {
+		pairTotal += pairN[i]
+	}
+	c.Set("instruction_pairs_with_snapshot", pairTotal)
 	// reuse of one CPU value across different programs at the same PCs
 	reuseSteps := c10Reuse(c, bg, progs[:nEncProgs])
 	var snapEvals, snapSteps int64
@@ -464,6 +520,8 @@ func checkC10(c *Ctx) {
 	}
 	c.Set("isolation_schedules", isoExecs)
 	c.Set("isolation_points", isoPoints)
+	snapEvals += pairTotal
+	snapSteps += 3 * pairTotal
 	c.Evaluations = snapEvals + isoExecs
 	c.Nontrivial = snapEvals + isoSwitched
 	c.States = snapEvals + isoPoints
